@@ -279,7 +279,7 @@ def wcs_from_points(xy, world_coords, proj_point='center',
 
     if isinstance(proj_point, coord.SkyCoord):
         assert proj_point.size == 1
-        proj_point = proj_point.transform_to(world_coords)
+        proj_point = proj_point.transform_to(world_coords, merge_attributes=False)
         crval = (proj_point.data.lon, proj_point.data.lat)
         frame = proj_point.frame
     elif proj_point == 'center':  # use center of input points
